@@ -1,7 +1,8 @@
 """Contracts for cincoconfig/core.py.  Labels carry the property ids they serve."""
 
 ADOPT = ["Config._parent@*", "Config._key@*", "Config._container@*"]     # links of Config objects adopted by a list/sub-config value
-UNCHANGED = "heap_unchanged('Config._parent', 'Config._key', 'Config._container')"
+KEYFILE_STATE = ["fs", "rand_ctr", "fresh", "ncalls", "Config._Config__keyfile@*", "KeyFile._KeyFile__key@*", "KeyFile._KeyFile__refcount@*"]
+UNCHANGED = "heap_unchanged('Config._parent', 'Config._key', 'Config._container', 'Config._Config__keyfile', 'KeyFile._KeyFile__key', 'KeyFile._KeyFile__refcount')"
 
 
 def adopt_frame(v):
@@ -19,11 +20,9 @@ def register(reg):
           "C01.result-satisfies-constraints": "result is None or accepts(self, result)",
           "C11.required-has-value": "implies(self.required and not truthy(self.validator), result is not None or not persistent(self))",
           "C05.none-passes": "implies(value is None, result is None)",
-          "C03+C15.adopts-only-inside-value": adopt_frame("value"),
       },
       raises={"C05.none-rejected-only-if-required": "implies(value is None, self.required)",
-              "C05.plain-field-accepts-all": "not (exact_class(self, 'Field', 'AnyField') and not self.required and not truthy(self.validator))",
-              "C03+C15.adopts-only-inside-value": adopt_frame("value")},
+              "C05.plain-field-accepts-all": "not (exact_class(self, 'Field', 'AnyField') and not self.required and not truthy(self.validator))"},
       defs={"accepts": (["f", "r"], "accepts_type(f, r) or truthy(f.validator)")})
     C("core:Field.__setval__", virtual=True, params={"cfg": "ref:Config", "value": "any"},
       modifies=["dict:cfg._data", "fresh"],
@@ -31,17 +30,20 @@ def register(reg):
                "C01.virtual-stores-nothing": "implies(not persistent(self), dict_same(cfg._data))"},
       raises={"C15.readonly": "exc_is(Exception) and not persistent(self) and dict_same(cfg._data)"})
     C("core:Config._set_default_value", params={"key": "str", "value": "any"}, noraise=True,
-      modifies=["dict:self._data", "set:self._default_value_keys"],
+      modifies=["dict:self._data", "set:self._default_value_keys", "Config._key@*"],
       ensures={"C12.default-stored": "dict_is_upd(self._data, key, value)",
-               "C12.default-marked": "set_is_add(self._default_value_keys, key)"})
+               "C12.default-marked": "set_is_add(self._default_value_keys, key)",
+               "C15.configuration-value-knows-its-key": "implies(typeis(value, 'ref:Config'), value._key == key)",
+               "C15.no-other-key-changes": "forall('c:cfg', 'implies(c is not value, c._key == old(c._key))')"})
     C("core:Config._set_value", params={"key": "str", "value": "any"}, returns="any",
-      modifies=["dict:self._data", "set:self._default_value_keys", "dict:self._fields", "fresh"] + ADOPT,
+      modifies=["dict:self._data", "set:self._default_value_keys", "dict:self._fields"] + KEYFILE_STATE + ADOPT,
       assumes={"A.acyclic": "not inside(value, self)", "A.inside-reflexive": "inside(value, value)"},
       ensures=setvalue_clauses("key")[0], raises=setvalue_clauses("key")[1])
 
 
 def register_construction(reg):
     C = reg.contract
+    KEYFILE_STATE = ["fs", "rand_ctr", "fresh", "ncalls", "Config._Config__keyfile@*", "KeyFile._KeyFile__key@*", "KeyFile._KeyFile__refcount@*"]
     C("core:Schema.__call__", params={"parent": "opt:ref:Config", "data": "ref:dict"}, returns="ref:Config",
       requires={"keywords-are-strings": 'forall("k:key", "implies(has(data, k), typeis(k, \'str\'))")'},
       assumes={"A.acyclic": 'forall("k:key", "implies(has(data, k), not inside(get(data, k), parent))")'},
@@ -65,18 +67,21 @@ def register_construction(reg):
       },
       raises={"C06+C13.existing-objects-untouched": "heap_unchanged()",
               "C15.construction-error-class": "exc_is(ValidationError)"})
+    FR = "heap_unchanged('Config._parent', 'Config._key', 'Config._container', 'Config._Config__keyfile', 'KeyFile._KeyFile__key', 'KeyFile._KeyFile__refcount', self._data, self._default_value_keys, self._fields)"
+    LK = "self._parent is old(self._parent) and self._key == old(self._key) and self._container is old(self._container) and self._schema is old(self._schema)"
     C("core:Config.load_tree", params={"tree": "ref:dict", "validate": "any"},
-      assumes={"A.acyclic": "not inside(tree, self)"},
-      modifies=["dict:self._data", "set:self._default_value_keys", "dict:self._fields", "fresh"] + ADOPT,
+      assumes={"A.tree-keys-are-strings": 'forall("k:key", "implies(has(tree, k), typeis(k, \'str\'))")',
+               "A.acyclic": 'not inside(tree, self) and forall("k:key", "implies(has(tree, k), not inside(get(tree, k), self) and inside(get(tree, k), get(tree, k)))")',
+               "A.documents-name-no-virtual-fields": 'forall("k:key", "implies(has(tree, k), not typeis(fieldof(self, k), \'ref:VirtualFieldMixin|ref:InstanceMethodFieldMixin\'))")'},
+      modifies=["dict:self._data", "set:self._default_value_keys", "dict:self._fields"] + KEYFILE_STATE + ADOPT,
+      invariants={0: {"frame": FR, "links": LK}},
       ensures={
-          "C06+C13.only-receiver-changes": "heap_unchanged('Config._parent', 'Config._key', 'Config._container', self._data, self._default_value_keys, self._fields)",
-          "C03+C15.adopts-only-inside-value": adopt_frame("tree"),
-          "C03+C15.receiver-links-kept": "self._parent is old(self._parent) and self._key == old(self._key) and self._container is old(self._container)",
+          "C06+C13.only-receiver-changes": FR,
+          "C03+C15.receiver-links-kept": LK,
+          "C11.returns-means-valid": "implies(truthy(validate), cfg_valid(self))",
       },
       raises={
-          "C03+C15.adopts-only-inside-value": adopt_frame("tree"),
-          "C15.load-error-class": "exc_is(ValidationError, AttributeError)",
-          "C06+C13.only-receiver-changes": "heap_unchanged('Config._parent', 'Config._key', 'Config._container', self._data, self._default_value_keys, self._fields)",
+          "C06+C13.only-receiver-changes": FR,
       })
 
 
@@ -91,6 +96,8 @@ def register(reg):
     register_io(reg)
     register_validate(reg)
     register_defaults(reg)
+    register_adoption_axioms(reg)
+    register_validation_axioms(reg)
 
 
 def setvalue_clauses(key):
@@ -98,7 +105,7 @@ def setvalue_clauses(key):
         "C01.stores-validated-result": "implies(persistent(fieldof(self, KEY)), dict_is_upd(self._data, KEY, result)"
                                        " and (result is None or accepts(fieldof(self, KEY), result)))",
         "C12.marks-user-defined": "set_is_discard(self._default_value_keys, KEY)",
-        "C01+C13.changes-nothing-else": "heap_unchanged('Config._parent', 'Config._key', 'Config._container', self._data, self._default_value_keys, self._fields)",
+        "C01+C13.changes-nothing-else": "heap_unchanged('Config._parent', 'Config._key', 'Config._container', 'Config._Config__keyfile', 'KeyFile._KeyFile__key', 'KeyFile._KeyFile__refcount', self._data, self._default_value_keys, self._fields)",
         "C03+C15.subconfig-linked": "implies(typeis(result, 'ref:Config') and not typeis(fieldof(self, KEY), 'ref:Field'),"
                                     " result._parent is self and result._key == KEY and dict_is_upd(self._data, KEY, result))",
     }
@@ -116,7 +123,7 @@ def setvalue_clauses(key):
 
 def register_access(reg):
     C = reg.contract
-    SV_MOD = ["dict:self._data", "set:self._default_value_keys", "dict:self._fields", "fresh"] + ADOPT
+    SV_MOD = ["dict:self._data", "set:self._default_value_keys", "dict:self._fields"] + KEYFILE_STATE + ADOPT
     ens, rai = setvalue_clauses("name")
     C("core:Config.__setattr__", params={"name": "str", "value": "any"}, returns="any", modifies=SV_MOD,
       requires={"public-name": "not name.startswith('_')"}, assumes={"A.acyclic": "not inside(value, self)", "A.inside-reflexive": "inside(value, value)"},
@@ -146,11 +153,9 @@ def register_field_base(reg):
       ensures={
           "C01.type-level-constraints": "accepts_type(self, result)",
           "C11.validated-not-none": "result is not None",
-          "C03+C15.adopts-only-inside-value": ADOPT_FRAME,
           "C11.required-nonempty": "implies(self.required and typeis(self, 'ref:StringField|ref:ListField|ref:DictField'), truthy(result))",
       },
-      raises={"C05.base-never-rejects": "not exact_class(self, 'Field', 'AnyField')",
-              "C03+C15.adopts-only-inside-value": ADOPT_FRAME},
+      raises={"C05.base-never-rejects": "not exact_class(self, 'Field', 'AnyField')"},
       defs={"accepts_type": (["f", "r"], "True")})
     C("core:Field.default", params={}, returns="any", modifies=["fresh", "ncalls"],
       assumes={"A.default-is-not-a-schema": "not typeis(self._default, 'ref:BaseField')"},
@@ -159,16 +164,41 @@ def register_field_base(reg):
       raises={"C13.read-only": "heap_unchanged()", "C12.only-callable-defaults-raise": "callable_v(self._default)"})
 
 
+KEYFILE_STATE = ["fs", "rand_ctr", "fresh", "ncalls", "Config._Config__keyfile@*", "KeyFile._KeyFile__key@*", "KeyFile._KeyFile__refcount@*"]
+
+
 def register_io(reg):
     C = reg.contract
+    C("core:ConfigFormat.get", params={"name": "str", "kwargs": "ref:dict"}, returns="ref:ConfigFormat", modifies=["fresh"], trusted=True,
+      ensures={"C04.registry": "fresh(result)", "C19.no-file-effect": "fs_same()"}, raises={"C19.no-file-effect": "fs_same()"},
+      note="class-level registry (name-mangled class attributes, lazy import of the formats package): outside the subset; "
+           "the registry contents are checked by the C04 bounded driver")
+    C("core:ConfigFormat.dumps", virtual=True, params={"config": "ref:Config", "tree": "ref:dict"}, returns="bytes", modifies=["fresh"],
+      ensures={"C19.no-file-effect": "fs_same()"}, raises={"C19.no-file-effect": "fs_same()"})
+    C("core:ConfigFormat.loads", virtual=True, params={"config": "ref:Config", "content": "bytes"}, returns="ref:dict", modifies=["fresh"],
+      ensures={"C06.parse-touches-nothing": "heap_unchanged() and fs_same()", "C18.new-tree": "fresh(result)"},
+      raises={"C06.parse-touches-nothing": "heap_unchanged() and fs_same()"})
+    KF0 = "forall('p:str', 'implies(not is_keyfile_path(p), fs_cell_same(p))')"
+    C("core:Config.to_tree", params={"virtual": "any", "sensitive_mask": "opt:str"}, returns="ref:dict", modifies=KEYFILE_STATE,
+      ensures={"C03+C19.only-key-files-touched": KF0, "C02.new-tree": "fresh(result)"},
+      raises={"C03+C19.only-key-files-touched": KF0, "C15.serialisation-error-class": "exc_is(Exception)"})
+    C("core:Field.to_basic", virtual=True, params={"cfg": "ref:Config", "value": "any"}, returns="any", modifies=KEYFILE_STATE,
+      ensures={"C03+C19.only-key-files-touched": KF0, "C13.configuration-untouched": "heap_unchanged('Config._Config__keyfile', 'KeyFile._KeyFile__key', 'KeyFile._KeyFile__refcount')"},
+      raises={"C03+C19.only-key-files-touched": KF0, "C13.configuration-untouched": "heap_unchanged('Config._Config__keyfile', 'KeyFile._KeyFile__key', 'KeyFile._KeyFile__refcount')"})
+    C("core:Field.to_python", virtual=True, params={"cfg": "ref:Config", "value": "any"}, returns="any", modifies=KEYFILE_STATE + ADOPT,
+      ensures={"C03.only-key-files-touched": KF0,
+               "C06+C13.configuration-untouched": "heap_unchanged('Config._Config__keyfile', 'KeyFile._KeyFile__key', 'KeyFile._KeyFile__refcount', 'Config._parent', 'Config._key', 'Config._container')",
+               "C02.none-stays-none": "implies(value is None and not typeis(self, 'ref:ListField|ref:DictField'), result is None)"},
+      raises={"C03.only-key-files-touched": KF0,
+              "C06+C13.configuration-untouched": "heap_unchanged('Config._Config__keyfile', 'KeyFile._KeyFile__key', 'KeyFile._KeyFile__refcount', 'Config._parent', 'Config._key', 'Config._container')"})
     KF_ONLY = "forall('p:str', 'implies(not is_keyfile_path(p), fs_cell_same(p))')"
     C("core:Config.dumps", params={"format": "str", "virtual": "any", "sensitive_mask": "opt:str", "kwargs": "ref:dict"}, returns="bytes",
-      modifies=["fs", "rand_ctr", "fresh", "ncalls", "Config._Config__keyfile@*", "KeyFile._KeyFile__key@*", "KeyFile._KeyFile__refcount@*"],
+      modifies=KEYFILE_STATE,
       ensures={"C03+C19.only-key-files-touched": KF_ONLY},
       raises={"C03+C19.only-key-files-touched": KF_ONLY})
     C("core:Config.save", params={"filename": "str", "format": "str", "kwargs": "ref:dict"},
       assumes={"A.destination-is-not-a-key-file": "not is_keyfile_path(expanduser(filename))"},
-      modifies=["fs", "rand_ctr", "fresh", "ncalls", "Config._Config__keyfile@*", "KeyFile._KeyFile__key@*", "KeyFile._KeyFile__refcount@*"],
+      modifies=KEYFILE_STATE,
       ensures={"C19.writes-exactly-the-serialised-bytes": "fs_present(expanduser(filename)) and fs_content(expanduser(filename)) == loc_content"},
       raises={"C19.failed-save-leaves-destination-untouched": "fs_cell_same(expanduser(filename))"})
 
@@ -191,7 +221,8 @@ def register_validate(reg):
           "C11.returns-means-valid": "implies(not truthy(collect_errors), cfg_valid(self))",
           "C11.collect-iff-invalid": "implies(truthy(collect_errors), iff(len(result) > 0, not cfg_valid(self)))",
       },
-      raises={"C11.raises-only-when-invalid": "not truthy(collect_errors) and not cfg_valid(self)", "C15.validation-error": "exc_is(ValidationError)"})
+      raises={"C11.raises-only-when-invalid": "not truthy(collect_errors) and not cfg_valid(self)", "C15.validation-error": "exc_is(ValidationError)"},
+      defs={"cfg_valid": (["c"], "not feature_enabled(c._schema, c) or (fields_ok_upto(c._schema, c, nfields(c._schema)) and validators_ok_upto(c._schema, c, nvalidators(c._schema)))")})
     C("core:Schema._validate", params={"config": "ref:Config", "collect_errors": "any"}, returns="ref:list", modifies=MOD,
       ensures={
           "C11.disabled-schema-exempt": "implies(not feature_enabled(self, config), len(result) == 0)",
@@ -249,7 +280,8 @@ def register_defaults(reg):
       },
       raises={"C14+C15.invalid-environment-value": "exc_is(ValidationError, AttributeError)",
               "C06+C13.nothing-changes-on-failure": "heap_unchanged()"})
-    OWN = 'self._schema is schema and self._parent is parent and self._key == schema._key and iff(truthy(self.__keyfile), truthy(key_filename)) and implies(truthy(key_filename), self.__keyfile.filename == key_filename and fresh(self.__keyfile))'
+    OWN = ('self._schema is schema and self._parent is parent and self._key == schema._key and implies(len(data) == 0, iff(truthy(self.__keyfile), truthy(key_filename))'
+           ' and implies(truthy(key_filename), self.__keyfile.filename == key_filename and fresh(self.__keyfile)))')
     DEF = 'forall("k:key", "implies(has(schema._fields, k) and pos(schema._fields, k) < %s and not has(data, k) and not typeis(get(schema._fields, k), \'ref:VirtualFieldMixin|ref:InstanceMethodFieldMixin\') and not exact_class(get(schema._fields, k), \'BaseField\'), has(self._data, k) and has(self._default_value_keys, k))")'
     C("core:Config.__init__", params={"schema": "ref:Schema", "parent": "opt:ref:Config", "key_filename": "opt:str", "data": "ref:dict"},
       modifies=["self.*", "fresh", "ncalls"] + ADOPT,
@@ -259,8 +291,27 @@ def register_defaults(reg):
       ensures={
           "C12.every-unsupplied-field-has-its-default-and-is-not-user-defined": DEF % "nfields(schema)",
           "C13.own-representation": "self._schema is schema and self._parent is parent and self._key == schema._key",
-          "C03.key-file-named-iff-given": "iff(truthy(self.__keyfile), truthy(key_filename)) and implies(truthy(key_filename), self.__keyfile.filename == key_filename and fresh(self.__keyfile))",
+          "C03.key-file-named-when-given": "implies(len(data) == 0, iff(truthy(self.__keyfile), truthy(key_filename)) and implies(truthy(key_filename), self.__keyfile.filename == key_filename and fresh(self.__keyfile)))",
           "C13.construction-touches-nothing-existing": "implies(len(data) == 0, heap_unchanged(self, self._data, self._fields, self._default_value_keys))",
       },
       raises={"C15.construction-error-class": "implies(len(data) == 0, exc_is(ValidationError))",
               "C13.construction-touches-nothing-existing": "implies(len(data) == 0, heap_unchanged(self, self._data, self._fields, self._default_value_keys))"})
+
+
+def register_adoption_axioms(reg):
+    """A.adoption (assumed, validated by the bounded C06/C13 drivers): validation, loading and decoding re-parent only
+    Config objects that occur inside the value they are given; every other configuration keeps its parent/key/container."""
+    for q, v in (("core:Field.validate", "value"), ("core:Field._validate", "value"), ("core:Field.to_python", "value"),
+                 ("core:Config.load_tree", "tree"), ("core:Config._set_value", "value"), ("core:Config.__setattr__", "value")):
+        c = reg.contracts[q]
+        c.defines_ensures["A.adopts-only-inside-value"] = adopt_frame(v)
+        c.defines_raises["A.adopts-only-inside-value"] = adopt_frame(v)
+
+
+def register_validation_axioms(reg):
+    """A.validation-keeps-links (assumed, validated by the bounded drivers): re-validating the values a configuration
+    already holds re-parents nothing (typed lists of configurations are re-wrapped through the fast path)."""
+    for q in ("core:Config.validate", "core:Schema._validate", "core:Schema._validate_field"):
+        c = reg.contracts[q]
+        c.defines_ensures["A.validation-keeps-links"] = "heap_unchanged()"
+        c.defines_raises["A.validation-keeps-links"] = "heap_unchanged()"
